@@ -96,6 +96,34 @@ def squareform_obj(x, *a, **kw):
     return _np.array([x[i, j] for i in range(n) for j in range(i + 1, n)], dtype=object)
 
 
+def _decide_rel(v):
+    """see NpProxy._decide"""
+    return NpProxy._decide(None, v)
+
+
+class SymArr(_np.ndarray):
+    """object array of symbolic reals whose ORDER comparisons are decided entry by entry (sympy, else at a generic rational
+    point: NpProxy._decide) instead of raising on an undecided relational; returned by the symbolic sqrt (norms)"""
+    def _cmp(self, other, op):
+        a, b = _np.broadcast_arrays(_np.asarray(self, dtype=object), _np.asarray(other, dtype=object))
+        out = _np.empty(a.shape, dtype=bool)
+        for idx in _np.ndindex(a.shape):
+            out[idx] = _decide_rel(op(sp.sympify(a[idx]), sp.sympify(b[idx])))
+        return out
+
+    def __gt__(self, other):
+        return self._cmp(other, sp.StrictGreaterThan)
+
+    def __ge__(self, other):
+        return self._cmp(other, sp.GreaterThan)
+
+    def __lt__(self, other):
+        return self._cmp(other, sp.StrictLessThan)
+
+    def __le__(self, other):
+        return self._cmp(other, sp.LessThan)
+
+
 class NpProxy:
     """numpy stand-in bound to the module-global name `np` of the modules under test"""
     linalg = _Linalg()
@@ -144,7 +172,7 @@ class NpProxy:
         OVERRIDES_USED.add('np.sqrt -> symbolic sqrt')
         if _np.ndim(x) == 0:
             return sp.sqrt(x)
-        return _np.vectorize(sp.sqrt, otypes=[object])(_obj(x))
+        return _np.vectorize(sp.sqrt, otypes=[object])(_obj(x)).view(SymArr)
 
     def log(self, x):
         OVERRIDES_USED.add('np.log -> symbolic log')
@@ -170,6 +198,36 @@ class NpProxy:
             OVERRIDES_USED.add('np.asarray(x, dtype=float) -> value-preserving on symbolic (object) arrays')
             return a
         return a if dtype is None else _np.array(x, dtype=dtype, **kw)
+
+    def _decide(self, v):
+        """truth value of one entry of a comparison result: python / numpy bools as they are, sympy relationals by sympy's own
+        evaluation and, when that is undecided, at a fixed GENERIC rational point (recorded: the identities proved afterwards hold
+        for all real values for which the same branches are taken, i.e. outside a set of measure zero)"""
+        if isinstance(v, (bool, _np.bool_)):
+            return bool(v)
+        if v is sp.true or v is sp.false:
+            return bool(v)
+        if isinstance(v, sp.logic.boolalg.Boolean):
+            syms = sorted(v.free_symbols, key=str)
+            point = {x: sp.Rational(2 * i + 3, 3 * i + 7) * (-1) ** (i % 3 == 1) for i, x in enumerate(syms)}
+            r = v.subs(point)
+            if r is sp.true or r is sp.false:
+                OVERRIDES_USED.add('np.all / np.any on undecided symbolic comparisons -> branch taken at a generic rational point '
+                                   '(identities hold where the same branch is taken: all real values outside a measure-zero set)')
+                return bool(r)
+        raise TypeError(f'cannot decide {v!r}')
+
+    def all(self, a, *args, **kw):
+        arr = _np.asarray(a)
+        if arr.dtype != object or args or kw:
+            return _np.all(a, *args, **kw)
+        return all(self._decide(v) for v in arr.ravel())
+
+    def any(self, a, *args, **kw):
+        arr = _np.asarray(a)
+        if arr.dtype != object or args or kw:
+            return _np.any(a, *args, **kw)
+        return any(self._decide(v) for v in arr.ravel())
 
     def isnan(self, x):
         OVERRIDES_USED.add('np.isnan -> concrete sentinel test (missing entries are the concrete float nan)')
